@@ -18,10 +18,10 @@ K_THOROUGH_ONLY = [
 ]
 
 PROPS = {
-    "C01": dict(claim="Bounded symbolic checking of the predicate-graph scheduler: the real MIR of check_predicate_inner and every helper below it (parent map, Kahn levels, deferral, caching, node_edges, the byte-level effect scan) is executed by mirsym on symbolic graphs (1..3 nodes, <=2 edges quick / <=3 thorough, every edge_start and edge target any u16, post-read flag per node), both passes over a shared cache, with an uninterpreted node runner; each path is compared with the reference scheduling semantics (every node once, after all parents, inputs = parents' outputs ascending, pass assignment, verdict, failing indices, gas, data outputs; cyclic/malformed rejected unevaluated). Edge slicing (node_edges) is decided separately against its documented rule.",
-                outside=["graphs above the bound", "node evaluation (run_program) and the per-solution/set level are covered only through native replays", "dangling edge targets: only totality is asserted", "thread schedules (C02)"]),
-    "C03": dict(claim="Overlay: read_or_fallback + next_key (real MIR) with an uninterpreted pre-state, symbolic keys (<=2 words), <=2 proposed entries incl. deletions, counts 0..2 and any count > 2^40: per position the proposed value if the set proposes one for (contract, key+i) else the pre-state value for exactly that key, untouched contracts pass through, pre-state errors are returned unchanged, key successor with carry exact for keys <=4 words. Deferral: on the same symbolic graphs as C01 every node that depends on a post-state read (itself or an ancestor flagged) is evaluated only in the second pass and every other node exactly once in the first; the byte-level scan that sets the flag (bytes_contains_any) is decided against the parsed program on symbolic byte streams.",
-                outside=["the construction of the post-state map in the two-pass entry point and the pre/post routing of the four read ops are covered only through native replays", "graphs / key lengths above the bound"]),
+    "C01": dict(claim="Bounded symbolic checking of the predicate-graph scheduler: the real MIR of check_predicate_inner and every helper below it (parent map, Kahn levels, deferral, caching, node_edges, the byte-level effect scan) is executed by mirsym on symbolic graphs (1..3 nodes, <=2 edges quick / <=3 thorough, every edge_start and edge target any u16, post-read flag per node), both passes over a shared cache, with an uninterpreted node runner; each path is compared with the reference scheduling semantics (every node once, after all parents, inputs = parents' outputs ascending, pass assignment, verdict, failing indices, gas, data outputs; cyclic/malformed rejected unevaluated). Edge slicing (node_edges) is decided separately against its documented rule. Node evaluation (run_program, Vm::exec_ops uninterpreted): initial VM state = parents' stacks and memories concatenated in order, leaf [1] / [2] / other mapping, hand-on of (stack, memory), gas and VM errors passed through, concatenation above the limits rejected. Set level (check_set_predicates, check_predicate uninterpreted): all failing solution indices ascending, saturating gas sum, data outputs and caches attached to the right solution. The layers compose through the interfaces that were made uninterpreted.",
+                outside=["graphs above the bound", "dangling edge targets: only totality is asserted", "thread schedules (C02)"]),
+    "C03": dict(claim="Post-state construction: the two-pass entry point (per-pass check uninterpreted) hands an empty post-state to the first pass and exactly the declared + computed mutations per contract to the second, gas added saturating. Routing: Post* read ops ask the post view, the others the pre view (h_vmio::state_read). Overlay: read_or_fallback + next_key (real MIR) with an uninterpreted pre-state, symbolic keys (<=2 words), <=2 proposed entries incl. deletions, counts 0..2 and any count > 2^40: per position the proposed value if the set proposes one for (contract, key+i) else the pre-state value for exactly that key, untouched contracts pass through, pre-state errors are returned unchanged, key successor with carry exact for keys <=4 words. Deferral: on the same symbolic graphs as C01 every node that depends on a post-state read (itself or an ancestor flagged) is evaluated only in the second pass and every other node exactly once in the first; the byte-level scan that sets the flag (bytes_contains_any) is decided against the parsed program on symbolic byte streams.",
+                outside=["graphs / key lengths above the bound"]),
     "C04": dict(claim="Set-level uniqueness: check_set_state_mutations (real MIR) on sets of 1..3 solutions over two contracts with <=2 mutations each and symbolic keys accepts a set exactly when no two mutations of the WHOLE set address the same (contract, key); hence an accepted set proposes at most one value per slot, the post-state map built from it does not depend on insertion order, and the verdict of set validation is a symmetric function of the solutions.",
                 outside=["content-address order independence (hash crate) and the two-pass verdict under permutation are not separately encoded: the latter follows from C01's per-solution reference semantics plus the well-defined post-state (argument, not a query)"]),
     "C16": dict(claim="Validators against the documented limits: check_set on sets built at limit-1 / limit / limit+1 / 0 for every pair of the six limits (solutions, slots, words per slot, total mutations, key and value length), predicate::check and check_contract at 999/1000/1001 nodes and edges and 99/100/101 predicates with the oversized predicate at any position; the one-mutation-per-slot rule with symbolic keys; and check::decode_mutations on symbolic data-output memories: an Ok set never holds two mutations for one key (declared + computed).",
